@@ -25,7 +25,9 @@ LEVEL_TEXT = ("Lean 4 theorems over a transliteration of dask_expr/_repartition.
               "ends <= old' that the float expression is checked against exhaustively); RepartitionToMore: sum(nsplits) = n "
               "(nsplits_sum), exactly n partitions and rows/order preserved (tomore_rows, under the analogous hypothesis on "
               "split_evenly's positions); Repartition._lower yields n partitions in every branch after the fix of defect #22 "
-              "(lower_npartitions). The RepartitionDivisions interval walk is modelled executable and tied key-by-key to "
+              "(lower_npartitions); from_pandas_rows (partitions cut at the planned locations concatenate to the sorted frame, one "
+              "per division interval); divisions_npartitions (repartition(divisions=d) has exactly len(d)-1 partitions). "
+              "The RepartitionDivisions interval walk is modelled executable and tied key-by-key to "
               "_layer(); its row/order/divisions theorem is stated (FullStatement) and currently VALIDATED by the tie "
               "(API-level, random division vectors incl. force and single-last-division), not proved. RepartitionSize "
               "(memory-usage driven) is validated at API level only.")
